@@ -475,7 +475,7 @@ impl<'a> Norm<'a> {
                             if f.ends_with("stream::repeat") {
                                 if let Expr::Call(dur) = &th.args[0] {
                                     let df = dur.func.to_token_stream().to_string().replace(' ', "");
-                                    if df.ends_with("Duration::from_secs") && dur.args.len() == 1 {
+                                    if (df.ends_with("Duration::from_secs") || df == "v_duration_from_secs") && dur.args.len() == 1 {
                                         let s_ = &dur.args[0];
                                         let n = &mc.args[0];
                                         *e = parse_quote!(v_retry(#s_, #n));
@@ -483,6 +483,23 @@ impl<'a> Norm<'a> {
                                         return;
                                     }
                                 }
+                            }
+                        }
+                    }
+                }
+            }
+            // X.strip_prefix(LIT).unwrap_or(&Y).to_string()  ==>  v_strip_prefix_or(&X, LIT, &Y)
+            if mc.method == "to_string" && mc.args.is_empty() {
+                if let Expr::MethodCall(uo) = &*mc.receiver {
+                    if uo.method == "unwrap_or" && uo.args.len() == 1 {
+                        if let Expr::MethodCall(sp) = &*uo.receiver {
+                            if sp.method == "strip_prefix" && sp.args.len() == 1 {
+                                let x = &sp.receiver;
+                                let lit = &sp.args[0];
+                                let y = &uo.args[0];
+                                *e = parse_quote!(v_strip_prefix_or(&#x, #lit, #y));
+                                self.stats.bump("N9.strip_prefix_or");
+                                return;
                             }
                         }
                     }
